@@ -39,9 +39,14 @@ def run(case):
     RLA = lib.RunLengthArray
     dt = np.dtype(case["dtype"])
     v = np.array(case["vals"]).astype(dt)
+    if case.get("swap") and dt.kind in "iu" and dt.itemsize > 1:
+        v = v.astype(dt.newbyteorder())          # the same values in non-native byte order (what reading a big-endian file gives)
+        tags_swap = ["byteswapped"]
+    else:
+        tags_swap = []
     L = len(v)
     kind, idx = case["kind"], case["idx"]
-    tags = ["k:" + kind, "kind:" + dt.kind]
+    tags = ["k:" + kind, "kind:" + dt.kind] + tags_swap
     r = RLA.from_array(v.copy())
     joined = None
     args = []          # the caller's index arrays: (array, copy taken before the call)
@@ -243,8 +248,15 @@ def sweep(tier):
                 yield mk_case("int64", vals, "slice", slice(a, b, st))
 
 
+def _with_swap(rng, c):
+    """one case in eight with integer elements gets them in non-native byte order"""
+    if isinstance(c, dict) and "dtype" in c and np.dtype(c["dtype"]).kind in "iu" and rng.random() < 0.12:
+        c["swap"] = True
+    return c
+
+
 def random_case(rng, tier):
-    return gen_case(rng, tier)
+    return _with_swap(rng, gen_case(rng, tier))
 
 
 def classify(case, res):
